@@ -591,4 +591,114 @@ theorem parseTransform_marshal (t : Transform) (last : Bool) (h rest : Bytes) (h
           simp_all [List.take_succ_cons]
 
 
+
+
+/-- decoding the encoding of a transform list files exactly those transforms, in order -/
+theorem unmarshalTransforms_marshal (ts : List Transform) (bs : Bytes) (p : Proposal)
+    (hd : ∀ t ∈ ts, t.Dom) (hm : marshalTransforms ts = .ok bs) :
+    unmarshalTransforms bs p = .ok (ts.foldl Proposal.file p) := by
+  induction ts generalizing bs p with
+  | nil =>
+    simp [marshalTransforms] at hm; subst hm
+    unfold unmarshalTransforms; simp
+  | cons t rest ih =>
+    simp only [marshalTransforms] at hm
+    cases hh : marshalTransform rest.isEmpty t with
+    | err => simp [hh] at hm
+    | fault => simp [hh] at hm
+    | ok h =>
+      cases hr : marshalTransforms rest with
+      | err => simp [hh, hr] at hm
+      | fault => simp [hh, hr] at hm
+      | ok tl =>
+        simp [hh, hr] at hm
+        subst hm
+        obtain ⟨hp, h8⟩ := parseTransform_marshal t rest.isEmpty h tl (hd t (by simp)) hh
+        unfold unmarshalTransforms
+        rw [dif_neg (by len_omega), if_neg (by len_omega), hp]
+        simp only
+        rw [dif_pos (by len_omega)]
+        simp only [List.drop_left, List.foldl_cons]
+        exact ih tl (p.file t) (fun x hx => hd x (by simp [hx])) hr
+
+/-- filing a list whose transforms all carry type `k` appends it to container `k` -/
+theorem foldl_file_encr (l : List Transform) (p : Proposal) (h : ∀ t ∈ l, t.ttype = Facts.ttEncr) :
+    l.foldl Proposal.file p = { p with encr := p.encr ++ l } := by
+  induction l generalizing p with
+  | nil => simp
+  | cons t rest ih =>
+    have ht := h t (by simp)
+    simp only [List.foldl_cons]
+    rw [ih _ (fun x hx => h x (by simp [hx]))]
+    simp [Proposal.file, ht]
+
+theorem foldl_file_prf (l : List Transform) (p : Proposal) (h : ∀ t ∈ l, t.ttype = Facts.ttPrf) :
+    l.foldl Proposal.file p = { p with prf := p.prf ++ l } := by
+  induction l generalizing p with
+  | nil => simp
+  | cons t rest ih =>
+    have ht := h t (by simp)
+    simp only [List.foldl_cons]
+    rw [ih _ (fun x hx => h x (by simp [hx]))]
+    have : (Facts.ttPrf == Facts.ttEncr) = false := by decide
+    simp [Proposal.file, ht, this]
+
+theorem foldl_file_integ (l : List Transform) (p : Proposal) (h : ∀ t ∈ l, t.ttype = Facts.ttInteg) :
+    l.foldl Proposal.file p = { p with integ := p.integ ++ l } := by
+  induction l generalizing p with
+  | nil => simp
+  | cons t rest ih =>
+    have ht := h t (by simp)
+    simp only [List.foldl_cons]
+    rw [ih _ (fun x hx => h x (by simp [hx]))]
+    have h1 : (Facts.ttInteg == Facts.ttEncr) = false := by decide
+    have h2 : (Facts.ttInteg == Facts.ttPrf) = false := by decide
+    simp [Proposal.file, ht, h1, h2]
+
+theorem foldl_file_dh (l : List Transform) (p : Proposal) (h : ∀ t ∈ l, t.ttype = Facts.ttDh) :
+    l.foldl Proposal.file p = { p with dh := p.dh ++ l } := by
+  induction l generalizing p with
+  | nil => simp
+  | cons t rest ih =>
+    have ht := h t (by simp)
+    simp only [List.foldl_cons]
+    rw [ih _ (fun x hx => h x (by simp [hx]))]
+    have h1 : (Facts.ttDh == Facts.ttEncr) = false := by decide
+    have h2 : (Facts.ttDh == Facts.ttPrf) = false := by decide
+    have h3 : (Facts.ttDh == Facts.ttInteg) = false := by decide
+    simp [Proposal.file, ht, h1, h2, h3]
+
+theorem foldl_file_esn (l : List Transform) (p : Proposal) (h : ∀ t ∈ l, t.ttype = Facts.ttEsn) :
+    l.foldl Proposal.file p = { p with esn := p.esn ++ l } := by
+  induction l generalizing p with
+  | nil => simp
+  | cons t rest ih =>
+    have ht := h t (by simp)
+    simp only [List.foldl_cons]
+    rw [ih _ (fun x hx => h x (by simp [hx]))]
+    have h1 : (Facts.ttEsn == Facts.ttEncr) = false := by decide
+    have h2 : (Facts.ttEsn == Facts.ttPrf) = false := by decide
+    have h3 : (Facts.ttEsn == Facts.ttInteg) = false := by decide
+    have h4 : (Facts.ttEsn == Facts.ttDh) = false := by decide
+    simp [Proposal.file, ht, h1, h2, h3, h4]
+
+/-- proposals of the encodable domain -/
+def Proposal.Dom (p : Proposal) : Prop :=
+  (∀ t ∈ p.encr, t.ttype = Facts.ttEncr ∧ t.Dom) ∧ (∀ t ∈ p.prf, t.ttype = Facts.ttPrf ∧ t.Dom) ∧
+  (∀ t ∈ p.integ, t.ttype = Facts.ttInteg ∧ t.Dom) ∧ (∀ t ∈ p.dh, t.ttype = Facts.ttDh ∧ t.Dom) ∧
+  (∀ t ∈ p.esn, t.ttype = Facts.ttEsn ∧ t.Dom)
+
+theorem file_all (p : Proposal) (hd : p.Dom) :
+    p.transforms.foldl Proposal.file ⟨p.num, p.proto, p.spi, [], [], [], [], []⟩ = p := by
+  obtain ⟨h1, h2, h3, h4, h5⟩ := hd
+  unfold Proposal.transforms
+  simp only [List.foldl_append]
+  rw [foldl_file_encr _ _ (fun t ht => (h1 t ht).1)]
+  rw [foldl_file_prf _ _ (fun t ht => (h2 t ht).1)]
+  rw [foldl_file_integ _ _ (fun t ht => (h3 t ht).1)]
+  rw [foldl_file_dh _ _ (fun t ht => (h4 t ht).1)]
+  rw [foldl_file_esn _ _ (fun t ht => (h5 t ht).1)]
+  cases p; simp
+
+
 end Ike
